@@ -149,4 +149,52 @@ theorem step_abandon_fields (t : State) (g : Guard) (hp : t.poisoned = none) (hg
       (step t .abandon).poisoned = none := by
   simp [step, hp, hg]
 
+theorem emptyBuilds_mono_step (s : State) (op : Op) : s.emptyBuilds ≤ (step s op).emptyBuilds := by
+  cases step_effect s op <;> omega
+
+theorem emptyBuilds_mono (ops : List Op) (s : State) : s.emptyBuilds ≤ (ops.foldl step s).emptyBuilds := by
+  induction ops generalizing s with
+  | nil => simp
+  | cons op ops ih =>
+    have := emptyBuilds_mono_step s op
+    have := ih (step s op)
+    simp only [List.foldl_cons]; omega
+
+/-- emitted numbers are strictly increasing, all below the next number, which never passes 2^62 -/
+structure PnInv (s : State) : Prop where
+  sorted : s.built.Pairwise (· < ·)
+  below : ∀ p ∈ s.built, p < s.j.largest
+  bound : s.j.largest ≤ varintMax + 1
+
+theorem step_pnInv (s : State) (op : Op) (h : PnInv s) (he : (step s op).emptyBuilds = s.emptyBuilds) :
+    PnInv (step s op) := by
+  cases step_effect s op with
+  | none h1 h2 h3 => exact ⟨by rw [h2]; exact h.sorted, by rw [h1, h2]; exact h.below, by rw [h1]; exact h.bound⟩
+  | consumed h1 h2 h3 h4 =>
+    refine ⟨?_, ?_, by omega⟩
+    · rw [h2, List.pairwise_append]
+      refine ⟨h.sorted, List.pairwise_singleton _ _, ?_⟩
+      intro a ha b hb
+      simp only [List.mem_singleton] at hb
+      subst hb; exact h.below a ha
+    · intro p hp
+      rw [h2] at hp; rw [h1]
+      simp only [List.mem_append, List.mem_singleton] at hp
+      rcases hp with hp | hp
+      · have := h.below p hp; omega
+      · omega
+  | empty h1 h2 h3 => omega
+
+theorem fold_pnInv (ops : List Op) (s : State) (h : PnInv s)
+    (he : (ops.foldl step s).emptyBuilds = s.emptyBuilds) : PnInv (ops.foldl step s) := by
+  induction ops generalizing s with
+  | nil => simpa using h
+  | cons op ops ih =>
+    simp only [List.foldl_cons] at he ⊢
+    have m1 := emptyBuilds_mono_step s op
+    have m2 := emptyBuilds_mono ops (step s op)
+    exact ih (step s op) (step_pnInv s op h (by omega)) (by omega)
+
+theorem init_pnInv : PnInv init := ⟨by simp [init], by simp [init], by simp [init, Journal.largest]⟩
+
 end GmQuic.SentJournal
